@@ -12,6 +12,8 @@
       whose announced signing subset, for every arrival sequence of ready messages, contains no culprit.
    3. `left_out_waits_for_start`: a SubsetError leads to waiting for a start message, which is then accepted from any
       sender (`runWait none`), and no fail message can abort that wait.
+      `left_out_outlasts_coordinator_timeout`: that wait is limited by TssTimeout — silences longer than
+      CoordinatorTimeout change nothing (time-outs as events `TEv.quiet`; contrast `shorter_limit_expires`).
    4. `unrecognised_failure_ends_session`, `non_retryable_never_retried`.
    5. `second_attempt_clean`: the composition (classification → election → follow / announce) for the intended election
       rule; excluded point `self_culprit_point`. `asFound_never_recognises_pool_errors`: the defect as found.
@@ -249,6 +251,40 @@ theorem left_out_waits_for_start (e : Err α) (hk : intended e = some .subset) :
     split at hres
     · next r hp => rw [hres] at hp; exact h hp
     · cases hres
+
+/-- **C11-3 (left out, time-outs).** The left-out relayer's wait is limited by `TssTimeout`, not by `CoordinatorTimeout`:
+    for every trace without a silence longer than `TssTimeout`, silences longer than `CoordinatorTimeout` — any number,
+    anywhere — change nothing; it behaves as on the messages alone and does not give up. -/
+theorem left_out_outlasts_coordinator_timeout (tr : List (TEv α)) (h : TEv.quiet .tss ∉ tr) :
+    (runLeftOut tr).timedOut = false ∧ (runLeftOut tr).w = runWait2 (none : Option α) none (msgsOf tr) := by
+  unfold runLeftOut runTimed runWait2
+  generalize (initW : WSt α) = w0
+  induction tr generalizing w0 with
+  | nil => simp [msgsOf]
+  | cons e es ih =>
+    have hes : TEv.quiet .tss ∉ es := fun x => h (List.mem_cons_of_mem _ x)
+    cases e with
+    | msg m => simpa [stepTimed, msgsOf] using ih hes (stepWait2 none none w0 m)
+    | quiet q =>
+      cases q with
+      | tss => exact absurd (List.mem_cons_self) h
+      | coord =>
+        have : stepTimed (none : Option α) none .tss ⟨w0, false⟩ (.quiet .coord) = ⟨w0, false⟩ := by
+          simp only [stepTimed]
+          cases w0.phase <;> simp [expires]
+        simp only [List.foldl_cons, this, msgsOf]
+        exact ih hes w0
+
+example : (runLeftOut [TEv.quiet .coord, .quiet .coord, .quiet .coord, .msg (Ev.init 2), .msg (Ev.start 2 (some 1))]).w.runs = [1] ∧
+    (runLeftOut [TEv.quiet .coord, .quiet .coord, .quiet .coord, .msg (Ev.init 2), .msg (Ev.start (2 : Nat) (some 1))]).timedOut = false := by
+  decide
+
+/-- contrast, stated rather than hidden: a wait limited by `CoordinatorTimeout` (what `start` uses for a KNOWN
+    coordinator) is over after the first such silence, and a silence longer than `TssTimeout` ends the left-out wait too -/
+theorem shorter_limit_expires :
+    (runTimed (none : Option Nat) none .coord [TEv.quiet .coord, .msg (Ev.start 2 (some 1))]).timedOut = true ∧
+    (runTimed (none : Option Nat) none .coord [TEv.quiet .coord, .msg (Ev.start 2 (some 1))]).w.runs = [] ∧
+    (runLeftOut [TEv.quiet .tss, .msg (Ev.start (2 : Nat) (some 1))]).timedOut = true := by decide
 
 /-- **C11-4 (unrecognised failure).** Without any typed error the session ends with that error: no retry, no wait. -/
 theorem unrecognised_failure_ends_session (e : Err α) (retryable : Bool) (hk : intended e = some .unknown) :
